@@ -392,6 +392,133 @@ func checkC15(c *Ctx, r *Report) {
 			r3.Check(okL, subClose+": the sink is removed under the node lock", body.Pos(), len(rem), "", "", "")
 		}
 	}
+	// the sink removed is the closing subscription's own: identified by its channel (names are not unique)
+	{
+		isSinksOf := func(field string) func(ssa.Value) bool {
+			return func(v ssa.Value) bool { return isLoadOfField(field)(strip2(v)) }
+		}
+		chOfElem := conjunctChEq(c, ebP)
+		if f := c.Fn(subClose); f != nil {
+			var body *ssa.Function
+			for _, a := range allAnon(f) {
+				if len(findInstrs(a, fieldWritePred(nodeT+".sinks"))) > 0 {
+					body = a
+				}
+			}
+			if body == nil {
+				r3.Fail(subClose+": sink removal", f.Pos(), "no write to n.sinks found", "")
+			} else {
+				isSinks := isSinksOf(nodeT + ".sinks")
+				isSubCh := func(v ssa.Value) bool { return isLoadOfField(ebP + ".sub.ch")(strip2(v)) }
+				// every write to the list: element stores and the re-slice
+				var writes []ssa.Instruction
+				idxOfStore := map[ssa.Instruction]ssa.Value{}
+				allInstrs(body, func(in ssa.Instruction) {
+					if st, ok := in.(*ssa.Store); ok {
+						if ia, ok := st.Addr.(*ssa.IndexAddr); ok && isSinks(ia.X) {
+							writes = append(writes, in)
+							idxOfStore[in] = ia.Index
+						}
+					}
+					if isFieldWrite(in, nodeT+".sinks") {
+						writes = append(writes, in)
+					}
+				})
+				matched := map[ssa.Value]bool{}
+				// (a) a comparison of an element's channel with s.ch
+				elemIdx := func(v ssa.Value) ssa.Value {
+					fl, base := loadOfField(strip2(v))
+					if fl == nil || fl.Name() != "ch" {
+						return nil
+					}
+					ld, ok := strip2(base).(*ssa.UnOp)
+					if !ok || ld.Op != token.MUL {
+						return nil
+					}
+					ia, ok := ld.X.(*ssa.IndexAddr)
+					if !ok || !isSinks(ia.X) {
+						return nil
+					}
+					return ia.Index
+				}
+				eqA := func(b *ssa.BasicBlock, si int) bool {
+					if ifOf(b) == nil {
+						return false
+					}
+					base, neg := stripNot(condOf(b))
+					bo, ok := base.(*ssa.BinOp)
+					if !ok || (bo.Op != token.EQL && bo.Op != token.NEQ) {
+						return false
+					}
+					var idx ssa.Value
+					if i := elemIdx(bo.X); i != nil && isSubCh(bo.Y) {
+						idx = i
+					} else if i := elemIdx(bo.Y); i != nil && isSubCh(bo.X) {
+						idx = i
+					}
+					if idx == nil {
+						return false
+					}
+					matched[idx] = true
+					return (si == 0) == ((bo.Op == token.EQL) != neg)
+				}
+				// (b) idx := slices.IndexFunc(n.sinks, pred), pred answering true exactly for the sink on s.ch
+				var idxCalls []ssa.Value
+				for _, call := range callsIn(body, "slices.IndexFunc") {
+					a := call.Common().Args
+					mc, ok := strip2(a[1]).(*ssa.MakeClosure)
+					if !isSinks(a[0]) || !ok {
+						continue
+					}
+					g := mc.Fn.(*ssa.Function)
+					cj := chOfElem(func(v ssa.Value) bool { return isSubCh(v) })
+					m1 := answerGuardedBy(c, g, throughClosure(mc), []conjunct{cj}, true)
+					m2 := answerGuardedBy(c, g, throughClosure(mc), []conjunct{cj.negate()}, false)
+					r3.Check(len(m1) == 0 && len(m2) == 0, subClose+": the index searched is that of the sink on s.ch", instrPos(call.(ssa.Instruction)), 2, "", "another subscription's sink is detached, or this one stays registered with a closed channel", strings.Join(append(m1, m2...), "; "))
+					if len(m1) == 0 {
+						idxCalls = append(idxCalls, call.Value())
+						matched[call.Value()] = true
+					}
+				}
+				isIdx := func(v ssa.Value) bool {
+					for _, x := range idxCalls {
+						if v == x {
+							return true
+						}
+					}
+					return false
+				}
+				found := anyEdge(edgeExcl(isIdx, func(v ssa.Value) bool { k, ok := constInt(v); return ok && k == 0 }, ordLT),
+					eqEdge(isIdx, func(v ssa.Value) bool { k, ok := constInt(v); return ok && k == -1 }, false))
+				r3.guard(body, "write to n.sinks", writes, "the sink on s.ch was found", anyEdge(eqA, found), nil)
+				okIdx := false
+				for _, ix := range idxOfStore {
+					if matched[ix] {
+						okIdx = true
+					}
+				}
+				r3.Check(okIdx, subClose+": the slot overwritten is the one that compared equal", body.Pos(), len(idxOfStore)+1, "", "the sink detached is not the one that was identified", "")
+			}
+		}
+		if f := c.Fn(wM("removeSink")); f != nil {
+			n := 0
+			for _, call := range callsIn(f, "slices.DeleteFunc") {
+				a := call.Common().Args
+				mc, ok := strip2(a[1]).(*ssa.MakeClosure)
+				if !isSinksOf(wT+".sinks")(a[0]) || !ok {
+					continue
+				}
+				n++
+				g := mc.Fn.(*ssa.Function)
+				th := throughClosure(mc)
+				cj := chOfElem(func(v ssa.Value) bool { return isParamVar(c, th(v), "ch") || isParamVar(c, v, "ch") })
+				m1 := answerGuardedBy(c, g, th, []conjunct{cj}, true)
+				m2 := answerGuardedBy(c, g, th, []conjunct{cj.negate()}, false)
+				r3.Check(len(m1) == 0 && len(m2) == 0, wM("removeSink")+": exactly the sinks on the closing channel are deleted", instrPos(call.(ssa.Instruction)), 2, "", "another wildcard subscription is detached, or the closing one keeps receiving", strings.Join(append(m1, m2...), "; "))
+			}
+			r3.Check(n == 1, wM("removeSink")+": one DeleteFunc over the sinks", f.Pos(), n, "", "", "")
+		}
+	}
 	if f := r3.need(wM("removeSink")); f != nil {
 		locks := findInstrs(f, callPred("(*sync.RWMutex).Lock"))
 		starts := findInstrs(f, func(in ssa.Instruction) bool {
@@ -535,6 +662,9 @@ func checkC15(c *Ctx, r *Report) {
 			ui := u.(ssa.Instruction)
 			if !strings.HasPrefix(pathOf(callArgs(u)[0]), "b.") {
 				continue
+			}
+			if _, deferred := ui.(*ssa.Defer); deferred {
+				continue // runs at the exit, after the delete
 			}
 			if w, _ := (&Cut{Fn: f, From: []ssa.Instruction{ui}, Target: inSet(dels)}).Run(c); w != "" {
 				ok = false
@@ -711,4 +841,18 @@ func flagGuarded(c *Ctx, f *ssa.Function, target ssa.Instruction, guards []ordGu
 		}
 	}
 	return false
+}
+
+// conjunctChEq: "the sink's ch equals the closing channel": a comparison of a namedSink's ch field with a value
+// satisfying isOurs.
+func conjunctChEq(c *Ctx, ebP string) func(isOurs func(ssa.Value) bool) conjunct {
+	return func(isOurs func(ssa.Value) bool) conjunct {
+		return conjunct{name: "sink.ch == closing channel", cond: func(th func(ssa.Value) ssa.Value) condPred {
+			isElemCh := func(v ssa.Value) bool {
+				fl, _ := loadOfField(strip2(v))
+				return fl != nil && fl.Name() == "ch" && !isOurs(v)
+			}
+			return eqCond(isElemCh, func(v ssa.Value) bool { return isOurs(v) || isOurs(th(v)) })
+		}}
+	}
 }
